@@ -498,6 +498,11 @@ fn eval(a: &[String]) -> String {
         ts.push(SolarTime::from_ymd_hms(j.get_year(), j.get_month(), j.get_day(), 0, 10, 0));
         ts.push(SolarTime::from_ymd_hms(j.get_year(), j.get_month(), j.get_day(), 23, 50, 0));
       } }
+      // 23:30 of the evening before a Jie instant that falls between 00:00 and 01:00 (2000..2040)
+      for y in 2000isize..=2040 { for k in 0..12isize {
+        let z = SolarTerm::from_index(y, 1 + 2 * k).get_julian_day().get_solar_time();
+        if z.get_hour() == 0 { let p = z.get_solar_day().next(-1); ts.push(SolarTime::from_ymd_hms(p.get_year(), p.get_month(), p.get_day(), 23, 30, 0)); }
+      } }
       for t in ts {
         let v = t.get_sixty_cycle_hour();
         let e = v.get_eight_char();
@@ -798,6 +803,21 @@ fn eval(a: &[String]) -> String {
             if bad { out = format!("festival {} of {} stepped by {}", i, y, n); break 'scan; }
           }
         }
+      }
+      // the last supported year: stepping from 9998 into 9999 (targets up to the Double Ninth, which still lie in civil 9999)
+      if out == "NONE" {
+        let size: isize = if v[0] == 0 { 10 } else { 13 };
+        'end: for i in 0..size { for n in 1..=(2 * size) {
+          let tot = 9998 * size + i + n;
+          let (y2, i2) = (tot.div_euclid(size), tot.rem_euclid(size) as usize);
+          if y2 != 9999 || i2 > 9 { continue; }
+          let bad = if v[0] == 0 {
+            match SolarFestival::from_index(9998, i as usize) { None => false, Some(f) => match (f.next(n), SolarFestival::from_index(y2, i2)) { (None, None) => false, (Some(a), Some(b)) => a.get_index() != b.get_index(), _ => true } }
+          } else {
+            match LunarFestival::from_index(9998, i as usize) { None => false, Some(f) => match (f.next(n), LunarFestival::from_index(y2, i2)) { (None, None) => false, (Some(a), Some(b)) => a.get_index() != b.get_index() || a.get_day().get_year() != b.get_day().get_year(), _ => true } }
+          };
+          if bad { out = format!("festival {} of 9998 stepped by {} (into 9999)", i, n); break 'end; }
+        } }
       }
       out
     }
